@@ -7,7 +7,11 @@ HERE = os.path.dirname(os.path.dirname(os.path.abspath(__file__)))
 
 # id -> (claimed?, technique, level text, level note, design section)
 CHECKS = {
- "C01": (False, "", "", "", "4/C01"),
+ "C01": (True,
+   'bounded exhaustive exploration of the real API in a statement-counting instrumented build: all token sequences / byte strings / edit neighbourhoods up to a bound x six operations, plus exact step/allocation growth on adversarial families',
+   'Every token sequence <= 4/5 over the 28-token alphabet, every byte string <= 4/6 over 16 lexer-class representatives and <= 5/7 over 9 UTF-8 fragment bytes, every 1-edit neighbour of every depth-1 tree text, each with and without default field, is run through Parse, ToPostgres, ToParameterizedPostgres and (on accepted trees) String, GoString, json.Marshal under recover, in a build where every statement of the library increments a counter: a panic, a budget overrun (10^7 statements; need < 10^4) or a %! marker is a violation. 3 248 adversarial families frame(block^n) are run for n doubling to 1 024 / 8 192 tokens with exact statement and allocation counts, which must grow at most cubically.',
+   "Polynomial time is decided as bounded growth on the enumerated families up to the length bound, not proved asymptotically. Instrumentation is regenerated from /repo's working tree on every run (go build -overlay).",
+   "4/C01"),
  "C02": (False, "", "", "", "4/C02"),
  "C03": (False, "", "", "", "4/C03"),
  "C04": (False, "", "", "", "4/C04"),
@@ -37,11 +41,27 @@ CHECKS = {
    'Every token sequence <= 4/5 (full alphabet) and <= 6/7 (five focused alphabets), every byte string <= 4/5 over 16 class representatives, every 1-edit neighbour of every depth-1 tree text, each with and without a default field: result pairs must be all-or-nothing, accepted trees must pass Validate and an independent walk of the statement\'s shape rules, render results must be (text,nil) or ("",err).',
    "Panics are C01's (counted as skipped_upstream). Inputs beyond the bounds are outside.",
    "4/C10"),
- "C11": (False, "", "", "", "4/C11"),
- "C12": (False, "", "", "", "4/C12"),
- "C13": (False, "", "", "", "4/C13"),
+ "C11": (True,
+   'bounded exhaustive exploration of the real parser: all token sequences / trees up to a bound parsed with and without the option, differential + structural oracle',
+   'Every token sequence <= 4/5 (full alphabet) and <= 6/7 (unary and boolean alphabets) with default field D, and every tree text of T(21,1) ∪ T(6,2) (thorough T(21,2)) with four default-field names (plain, with space, with double quote, 70 bytes): acceptance must agree with the option-free parse, erasing the default scoping must give exactly the option-free tree, no bare operand may remain and nothing inside a fielded value may be scoped.',
+   'The default-field name never occurs in the query (precondition of the statement).',
+   "4/C11"),
+ "C12": (True,
+   "bounded exhaustive exploration of the JSON codec on all accepted queries of a tree space built around the codec's corner values, round-trip oracle through encode/decode/print/render",
+   'Every accepted text of the trees over 41 leaf forms (the 21 standard ones plus empty strings, quoted * ? /x/, escaped /, 5.0, 1e3, -0, int64 extremes, non-ASCII, a word spelling "min":"max":, float/open/empty bounds) x 8 unary forms (fuzzy 0/1/3, boost 1/2.5) at depth 1 (thorough: depth 2, 1.5e7 trees), and every accepted token sequence <= 4/5, with and without default field: Marshal, Unmarshal, Validate, byte-identical re-encoding, identical String(), identical Render/RenderParam results, and DeepEqual whenever every leaf has the kind the decoder infers.',
+   "DeepEqual is only demanded under the statement's leaf-kind condition, computed from the original tree.",
+   "4/C12"),
+ "C13": (True,
+   'bounded exhaustive exploration of the decoder and the validated-expression operations over all byte strings of a JSON alphabet and all schema documents to nesting depth 2 (children by shape signature)',
+   "Every byte string <= 4/5 over 21 JSON symbols (punctuation, digits, letters, the schema's key words) and every document {left, operator, right, extras} over 22 leaf values x 22 operator names x (values ∪ 243 boundary objects) is decoded by the real UnmarshalJSON under recover; whatever decodes and validates is printed, re-encoded and rendered both ways under recover. Depth 2 pairs every representative of a decoded-shape signature (≈1 000 validated, ≈2 000 all) with every plain value and every coarse representative.",
+   'Depth-2 children are abstracted by shape signature (operator, dynamic types, string classes the code branches on, render outcome), recomputed from the implementation on every run; depth 1 is exhaustive without abstraction.',
+   "4/C13"),
  "C14": (False, "", "", "", "4/C14"),
- "C15": (False, "", "", "", "4/C15"),
+ "C15": (True,
+   'bounded exhaustive exploration of driver.Base.Render over configurations x trees with tracing render functions, checked against a fold reference model',
+   'All 40 configurations (all-tracing map, 19 single-operator overrides, 19 single-operator removals, the README construction) x every tree of T(21,1) ∪ T(6,2) (thorough T(21,2)) obtained both by Parse and through the public constructors: the call log must be exactly one call per node, to the function registered for that node\'s operator, after its children, with its children\'s results as (left, right) wrapped in parentheses at most, and Render\'s result must be the root call\'s result; with an operator removed Render must return ("", error) iff the tree contains it; ToPostgres/ToParameterizedPostgres must fail on every text containing ~ or ^.',
+   'Serialisation of raw leaf values and the order in which independent children are rendered are not constrained (not part of the statement).',
+   "4/C15"),
  "C16": (True,
    "bounded exhaustive (stateless) exploration of the real lexer: all byte strings over class representatives x all Peek/Next call sequences, against a token-list-with-cursor reference model",
    "Every byte string of length <= L over 16 lexer-class representatives (and <= L+1 over 9 UTF-8 fragment bytes) is lexed by the real internal/lex; on each input every Peek/Next call sequence of length <= D is replayed on a fresh lexer and compared step by step with a stream model (token list + cursor); segmentation, EOF stickiness and must-fail classes (decided without the lexer) are checked on every input. Exhaustive inside the bounds, nothing sampled.",
